@@ -3,5 +3,5 @@ def _on_s05f05(self, _handler, message):
     alids = function.get()
     if len(alids) == 0:
         alids = list(self.alarms.keys())
-    result = [{'ALCD': self.alarms[alid].code | (self.settings.data_items.ALCD.ALARM_SET if self.alarms[alid].set else 0), 'ALID': alid, 'ALTX': self.alarms[alid].text} for alid in alids]
+    result = [{'ALCD': self.alarms[alid].code | (self.settings.data_items.ALCD.ALARM_SET if self.alarms[alid].set else 0), 'ALID': alid, 'ALTX': self.alarms[alid].text} if alid in self.alarms else {'ALCD': b'', 'ALID': alid, 'ALTX': ''} for alid in alids]
     return self.stream_function(5, 6)(result)
